@@ -17,13 +17,16 @@ IU = "autoarray.inversion.inversion.imaging.inversion_imaging_util:"
 VU = "autoarray.inversion.inversion.inversion_util:"
 OS = "autoarray.operators.over_sampling.over_sample_util:"
 
-# the last two cross 2^16 cells / 2^16 unmasked pixels (thresholds such as "more than 65536 pixels", 16-bit index tables)
-SHAPES = [(65, 3), (3, 65), (300, 17), (17, 300), (25, 41), (41, 25), (70, 70), (33, 32), (130, 9), (4097, 1), (260, 260), (2, 70001)]
+SHAPES = [(65, 3), (3, 65), (300, 17), (17, 300), (25, 41), (41, 25), (70, 70), (33, 32), (130, 9), (4097, 1)]
+# shapes that cross 2^16 cells / unmasked pixels (thresholds such as "more than 65536 pixels", 16-bit index tables): only for
+# contracts whose run-time clauses are linear in the pixel count (a quadratic clause does not finish inside the escalation cap)
+SHAPES_XL = [(260, 260), (2, 70001)]
 
 
-def big_masks(rng, n=12, ring=0):
-    for i in range(n):
-        H, W = SHAPES[i % len(SHAPES)]
+def big_masks(rng, n=10, ring=0, xl=False):
+    shapes = SHAPES + (SHAPES_XL if xl else [])
+    for i in range(n + (len(SHAPES_XL) if xl else 0)):
+        H, W = shapes[i % len(shapes)]
         p = [0.1, 0.5, 0.9, 0.0][i % 4]
         m = np.array(np.random.default_rng(rng.randrange(2 ** 32)).random((H, W)) < p)
         m[-1, -1] = False            # something unmasked in the last row / column (tails of blocked loops)
@@ -39,11 +42,11 @@ def _set(key, g):
 
 for _k in ("total_pixels_2d_from", "native_index_for_slim_index_2d_from", "total_edge_pixels_from", "edge_1d_indexes_from",
            "border_slim_indexes_from"):
-    _set(M2 + _k, lambda rng, tier: ({"mask_2d": m} for m in big_masks(rng, 12)))
+    _set(M2 + _k, lambda rng, tier: ({"mask_2d": m} for m in big_masks(rng, 10)))
 _set(M2 + "mask_slim_indexes_from", lambda rng, tier: ({"mask_2d": m, "return_masked_indexes": bool(i % 2)} for i, m in enumerate(big_masks(rng))))
-_set(A2 + "array_2d_slim_from", lambda rng, tier: ({"array_2d_native": gens.reals(rng, m.shape, special=False), "mask_2d": m} for m in big_masks(rng)))
+_set(A2 + "array_2d_slim_from", lambda rng, tier: ({"array_2d_native": gens.reals(rng, m.shape, special=False), "mask_2d": m} for m in big_masks(rng, xl=True)))
 _set(A2 + "array_2d_native_from", lambda rng, tier: ({"array_2d_slim": gens.reals(rng, (int((~m).sum()),), special=False), "mask_2d": m}
-                                                       for m in big_masks(rng)))
+                                                       for m in big_masks(rng, xl=True)))
 _set(M2 + "blurring_mask_2d_from", lambda rng, tier: ({"mask_2d": m, "kernel_shape_native": k}
                                                         for m in big_masks(rng, 8, ring=6) for k in [(3, 3), (13, 11)]))
 _set(A2 + "resized_array_2d_from", lambda rng, tier: ({"array_2d": gens.reals(rng, s, special=False), "resized_shape": t, "origin": (-1, -1), "pad_value": 0.0}
